@@ -31,11 +31,13 @@ Definition otxn_equiv (t t' : otxn) : Prop :=
   o_date t = o_date t' /\ Forall2 op_equiv (o_posts t) (o_posts t').
 
 (* the exchange implied by a two-commodity residual is recorded as (x, y) or as (y, x) depending on
-   which entry of the residual map comes first; insert_price stores both directions either way *)
+   which entry of the residual map comes first (two different commodities); insert_price stores both
+   directions either way *)
 Definition ev_swap (e : price_event) : price_event :=
   {| e_source := e_source e; e_date := e_date e;
      e_xc := e_yc e; e_xv := e_yv e; e_yc := e_xc e; e_yv := e_xv e |}.
-Definition ev_equiv (e e' : price_event) : Prop := e' = e \/ e' = ev_swap e.
+Definition ev_equiv (e e' : price_event) : Prop :=
+  e' = e \/ (e' = ev_swap e /\ e_xc e <> e_yc e).
 Definition oev_equiv (e e' : option price_event) : Prop :=
   match e, e' with Some x, Some y => ev_equiv x y | None, None => True | _, _ => False end.
 
@@ -119,3 +121,12 @@ Definition tie_free (recs : records) (date : Z) (target c : cid) : Prop :=
   forall r1 r2,
     In r1 (best_rates (out_edges recs date) (length (rec_comms recs)) target c) ->
     In r2 (best_rates (out_edges recs date) (length (rec_comms recs)) target c) -> r1 = r2.
+
+(* ---- conversion of reports (Model/Convert.v) ---- *)
+(* both conversions succeed with related results, or both fail (RateNotFound or fuel) *)
+Definition conv_rel {A B} (R : A -> B -> Prop) (x : conv_outcome A) (y : conv_outcome B) : Prop :=
+  match x, y with
+  | COk a, COk b => R a b
+  | COk _, _ | _, COk _ => False
+  | _, _ => True
+  end.
